@@ -391,7 +391,7 @@ impl<const LEN: usize, const EMPTY: u8> SauceString<LEN, EMPTY> {
     }
 
     pub fn read(&mut self, data: &[u8]) -> usize {
-        let mut last_non_empty = LEN;
+        let mut last_non_empty = 0;
         #[allow(clippy::needless_range_loop)]
         for i in 0..LEN {
             if EMPTY == 0 && data[i] == 0 {
